@@ -17,7 +17,7 @@ func init() {
 	register(&Rule{ID: "C13.CONT", Min: 25, Doc: "no return/break inside a key loop: a bad key never suppresses its siblings", Run: runC13Cont})
 	register(&Rule{ID: "C13.CASEARG", Min: 30, Doc: "fixed-key sections compare keys case-sensitively, name-keyed sections case-insensitively", Run: runC13CaseArg})
 	register(&Rule{ID: "C13.DUP", Min: 3, Doc: "parseMapping reports a repeated key before storing it, folding case iff the mapping is case-insensitive", Run: runC13Dup})
-	register(&Rule{ID: "C13.MAND", Min: 11, Doc: "every mandatory key is checked after the key loop, unconditionally (or only under the documented alternative)", Run: runC13Mand})
+	register(&Rule{ID: "C13.MAND", Min: 13, Doc: "every mandatory key is checked after the key loop, unconditionally (or only under the documented alternative)", Run: runC13Mand})
 	register(&Rule{ID: "C13.FIXEDLEN", Min: 1, Doc: "a mapping whose entries are accessed by constant index is checked to have exactly that many entries", Run: runC13FixedLen})
 }
 
@@ -444,17 +444,16 @@ func runC13Dup(c *Ctx) {
 			}
 		}
 	}
-	var store *ssa.MapUpdate
-	var app *ssa.Call
+	var stores, apps []ssa.Instruction
 	eachInstr(fn, func(_ *ssa.BasicBlock, _ int, in ssa.Instruction) {
 		switch x := in.(type) {
 		case *ssa.MapUpdate:
 			if x.Map == lookup.X {
-				store = x
+				stores = append(stores, x)
 			}
 		case *ssa.Call:
 			if bi, ok := x.Call.Value.(*ssa.Builtin); ok && bi.Name() == "append" && strings.Contains(typeStr(x.Type()), "workflowKeyVal") {
-				app = x
+				apps = append(apps, x)
 			}
 		}
 	})
@@ -462,9 +461,22 @@ func runC13Dup(c *Ctx) {
 		c.bad("(*parser).parseMapping|duplicate test", lookup.Pos(), "the result of the membership test does not decide a branch")
 	} else {
 		seen := okIf.Block().Succs[0]
+		notSeen := okIf.Block().Succs[1]
+		// the rest of the iteration on the path of a key already seen: everything reachable from the true successor of the
+		// test without passing the head of the key loop (the innermost loop around the test) again
+		stop := map[*ssa.BasicBlock]bool{}
+		var head *ssa.BasicBlock
+		for _, h := range loopHeaders(fn) {
+			if body := naturalLoop(h); body[lookup.Block()] && (head == nil || naturalLoop(head)[h]) {
+				head = h
+			}
+		}
+		if head != nil {
+			stop[head] = true
+		}
+		sameIter := reachableBlocks([]*ssa.BasicBlock{seen}, stop)
 		reports := false
-		region := reachableBlocks([]*ssa.BasicBlock{seen}, map[*ssa.BasicBlock]bool{lookup.Block(): true})
-		for b := range region {
+		for b := range sameIter {
 			if !(b == seen || seen.Dominates(b)) {
 				continue
 			}
@@ -476,25 +488,34 @@ func runC13Dup(c *Ctx) {
 				}
 			}
 		}
-		skips := true
-		for _, in := range []ssa.Instruction{store, app} {
-			if in == nil {
-				continue
-			}
-			if in.Block() == seen || seen.Dominates(in.Block()) {
-				skips = false // stored on the already-seen branch
+		// neither the append to the result nor the store into the set is reached in the iteration of a key already seen
+		var leaked ssa.Instruction
+		for _, in := range append(append([]ssa.Instruction{}, stores...), apps...) {
+			if sameIter[in.Block()] {
+				leaked = in
 			}
 		}
-		if reports && skips {
-			c.ok("(*parser).parseMapping|duplicate test", lookup.Pos(), "a key already seen is reported and skipped")
-		} else {
-			c.bad("(*parser).parseMapping|duplicate test", lookup.Pos(), "the branch for an already seen key does not report it and continue")
+		switch {
+		case head == nil || seen == notSeen:
+			c.bad("(*parser).parseMapping|duplicate test", lookup.Pos(), "the membership test does not separate the keys already seen from new ones inside a key loop")
+		case !reports:
+			c.bad("(*parser).parseMapping|duplicate test", lookup.Pos(), "the branch for an already seen key does not report it")
+		case leaked != nil:
+			c.bad("(*parser).parseMapping|duplicate test", leaked.Pos(), "a key already seen is reported but the iteration goes on to store it (at "+c.P.Pos(leaked.Pos())+"): the duplicate entry is kept or replaces the remembered position")
+		default:
+			c.ok("(*parser).parseMapping|duplicate test", lookup.Pos(), "a key already seen is reported and neither the append nor the store into the set is reachable before the next key")
 		}
-		notSeen := okIf.Block().Succs[1]
-		if app != nil && store != nil && (app.Block() == notSeen || notSeen.Dominates(app.Block())) && (store.Block() == notSeen || notSeen.Dominates(store.Block())) {
-			c.ok("(*parser).parseMapping|store after test", app.Pos(), "the entry is appended and remembered only after the duplicate test said it is new")
+		// every append and every store lies on the not-seen side of the test only
+		after := len(apps) > 0 && len(stores) > 0 && seen != notSeen
+		for _, in := range append(append([]ssa.Instruction{}, stores...), apps...) {
+			if !(in.Block() == notSeen || notSeen.Dominates(in.Block())) || sameIter[in.Block()] {
+				after = false
+			}
+		}
+		if after {
+			c.ok("(*parser).parseMapping|store after test", apps[0].Pos(), "the entry is appended and remembered only on the path on which the duplicate test said it is new")
 		} else {
-			c.bad("(*parser).parseMapping|store after test", lookup.Pos(), "the entry is stored before (or without) the duplicate test")
+			c.bad("(*parser).parseMapping|store after test", lookup.Pos(), "the entry is stored before the duplicate test, without it, or also on the path of a key already seen")
 		}
 	}
 	// the key that is tested: the scalar's text, lower-cased exactly when the mapping is not case-sensitive - written inline
@@ -627,6 +648,7 @@ var mandatoryKeys = []struct {
 	{"password", "username", "", nil},
 	{"run", "", "", nil},     // defaults.run (if-form loop)
 	{"uses", "run", "", nil}, // step: run or uses
+	{"run", "uses", "", nil}, // step: the other arm
 }
 
 func runC13Mand(c *Ctx) {
@@ -699,13 +721,68 @@ func runC13Mand(c *Ctx) {
 			}
 			return false
 		}
-		collect := func(n ast.Node) {
+		// typed records: `X.F = p.parse...(...)` in the clause, as (type of X, F) - the field of a variant that records the key
+		var typed []mandTypedField
+		tagStr := ""
+		if sw, ok := kl.dispatch.(*ast.SwitchStmt); ok && sw.Tag != nil {
+			tagStr = exprStr(sw.Tag)
+		}
+		var collect func(n ast.Node)
+		collect = func(n ast.Node) {
+			if n == nil {
+				return
+			}
 			ast.Inspect(n, func(x ast.Node) bool {
-				if as, ok := x.(*ast.AssignStmt); ok {
-					for i, l := range as.Lhs {
+				switch st := x.(type) {
+				case *ast.IfStmt:
+					// a clause shared by several keys that asks again which key it is: only the branch of this key counts
+					if lab, eq, ok := tagCompare(info, st.Cond, tagStr); ok {
+						if st.Init != nil {
+							collect(st.Init)
+						}
+						if (lab == mk.key) == eq {
+							collect(st.Body)
+						} else {
+							collect(st.Else)
+						}
+						return false
+					}
+				case *ast.SwitchStmt:
+					if tagStr != "" && st.Tag != nil && exprStr(st.Tag) == tagStr {
+						var own, def *ast.CaseClause
+						for _, cc := range st.Body.List {
+							cl := cc.(*ast.CaseClause)
+							if cl.List == nil {
+								def = cl
+							}
+							for _, e := range cl.List {
+								if tv := info.Types[e]; tv.Value != nil && tv.Value.Kind() == constant.String && constant.StringVal(tv.Value) == mk.key {
+									own = cl
+								}
+							}
+						}
+						if own == nil {
+							own = def
+						}
+						if own != nil {
+							for _, b := range own.Body {
+								collect(b)
+							}
+						}
+						return false
+					}
+				case *ast.AssignStmt:
+					for i, l := range st.Lhs {
 						assignedAny[exprStr(l)] = true
-						if isRecord(as, i) {
+						if isRecord(st, i) {
 							assigned[exprStr(l)] = true
+							if sel, ok := ast.Unparen(l).(*ast.SelectorExpr); ok {
+								if _, isCall := st.Rhs[i].(*ast.CallExpr); isCall {
+									if t := info.TypeOf(sel.X); t != nil {
+										typed = append(typed, mandTypedField{t, sel.Sel.Name})
+									}
+								}
+							}
 						}
 					}
 				}
@@ -795,14 +872,16 @@ func runC13Mand(c *Ctx) {
 				if mentions(s.Cond) && isErrCall(s.Body) > 0 {
 					hits = append(hits, hit{s, append([]ast.Node(nil), stack[:len(stack)-1]...)})
 				}
-				// `if x, ok := <assigned>.(T); ok { ... } else ...`: a type switch written as assertions
-				if as, ok := s.Init.(*ast.AssignStmt); ok && len(as.Rhs) == 1 {
+				// `if x, ok := <assigned>.(T); ok { ... } else ...`: a type switch written as assertions (the head of the chain)
+				if as, ok := s.Init.(*ast.AssignStmt); ok && len(as.Rhs) == 1 && len(typed) > 0 {
 					if ta, ok := ast.Unparen(as.Rhs[0]).(*ast.TypeAssertExpr); ok && ta.Type != nil && mentionsIn(ta.X, assignedAny) && isErrCall(s) > 0 {
-						hits = append(hits, hit{s, append([]ast.Node(nil), stack[:len(stack)-1]...)})
+						if par, isIf := stack[len(stack)-2].(*ast.IfStmt); !isIf || par.Else != ast.Stmt(s) {
+							hits = append(hits, hit{s, append([]ast.Node(nil), stack[:len(stack)-1]...)})
+						}
 					}
 				}
 			case *ast.TypeSwitchStmt:
-				if mentionsIn(s.Assign, assignedAny) && isErrCall(s.Body) > 0 {
+				if mentionsIn(s.Assign, assignedAny) && isErrCall(s.Body) > 0 && len(typed) > 0 {
 					hits = append(hits, hit{s, append([]ast.Node(nil), stack[:len(stack)-1]...)})
 				}
 			}
@@ -812,12 +891,44 @@ func runC13Mand(c *Ctx) {
 			c.bad(construct, kl.rs.Pos(), fmt.Sprintf("nothing assigned by the clause of %q (%s) is tested after the key loop by a check that reports an error: a missing %q is silently accepted", mk.key, strings.Join(sortedKeys(assigned), ", "), mk.key))
 			continue
 		}
-		// the check must not sit under conditions other than the documented alternative
+		// reportsAlways: the statement list reports on every run through it (an error call among its direct statements)
+		reportsAlways := func(list []ast.Stmt) bool {
+			for _, st := range list {
+				if es, ok := st.(*ast.ExprStmt); ok {
+					if call, ok := es.X.(*ast.CallExpr); ok {
+						if fn := calleeObj(info, call); fn != nil && strings.HasPrefix(shortFuncName(fn), "(*parser).error") {
+							return true
+						}
+					}
+				}
+			}
+			return false
+		}
+		// the check must hold whenever the key is missing: its condition is the missing-test (or a disjunction with it, or
+		// a conjunction of it with the absence of the documented alternative only), its body reports unconditionally, and
+		// it does not sit under conditions other than the documented alternative
 		okHit := ""
 		var why []string
 		for _, h := range hits {
 			bad := ""
-			for i, par := range h.parents {
+			switch s := h.n.(type) {
+			case *ast.IfStmt:
+				if _, isAssert := s.Init.(*ast.AssignStmt); isAssert && !mentions(s.Cond) {
+					bad = mandVariantArms(info, variantArmsOfIf(info, s), mk.key, typed, reportsAlways)
+					break
+				}
+				if w := condHoldsWhenMissing(s.Cond, assigned, guardVars); w != "" {
+					bad = "its condition `" + exprStr(s.Cond) + "` " + w
+				} else if !reportsAlways(s.Body.List) {
+					bad = "the body of `if " + exprStr(s.Cond) + "` reports only under a further condition"
+				}
+			case *ast.TypeSwitchStmt:
+				bad = mandVariantArms(info, variantArmsOfSwitch(info, s), mk.key, typed, reportsAlways)
+			}
+			for _, par := range h.parents {
+				if bad != "" {
+					break
+				}
 				if par.Pos() <= kl.rs.End() && par.End() >= kl.rs.End() {
 					continue // ancestors shared with the loop
 				}
@@ -825,16 +936,20 @@ func runC13Mand(c *Ctx) {
 				if !ok {
 					continue
 				}
-				// which branch are we in? conditions of all ifs in an else-if chain above count
-				_ = i
-				condOK := false
-				ast.Inspect(ifs.Cond, func(x ast.Node) bool {
-					if ex, ok := x.(ast.Expr); ok && guardVars[exprStr(ex)] {
-						condOK = true
+				// the enclosing condition may only be the documented alternative, and the check lies on the side on which
+				// the alternative is absent
+				inElse := ifs.Else != nil && ifs.Else.Pos() <= h.n.Pos() && h.n.End() <= ifs.Else.End()
+				switch guardSense(ifs.Cond, guardVars) {
+				case "absent":
+					if inElse {
+						bad = "it is only reached when `" + exprStr(ifs.Cond) + "` fails, that is when the alternative key is present"
 					}
-					return true
-				})
-				if !condOK {
+				case "present":
+					if !inElse {
+						bad = "it is only reached under `" + exprStr(ifs.Cond) + "`, that is when the alternative key is present"
+					}
+				case "mentions":
+				default:
 					bad = "it is only reached under `" + exprStr(ifs.Cond) + "`"
 				}
 			}
@@ -845,12 +960,225 @@ func runC13Mand(c *Ctx) {
 			why = append(why, bad)
 		}
 		if okHit != "" {
-			c.ok(construct, kl.rs.Pos(), "checked after the key loop at "+okHit)
+			c.ok(construct, kl.rs.Pos(), "checked after the key loop at "+okHit+": the report is reached whenever the key is missing")
 		} else {
 			sort.Strings(why)
-			c.bad(construct, kl.rs.Pos(), "the check for a missing "+mk.key+" exists but "+strings.Join(why, "; ")+", which is not a documented alternative: another key can suppress the report")
+			c.bad(construct, kl.rs.Pos(), "the check for a missing "+mk.key+" exists but "+strings.Join(why, "; ")+": a section without "+mk.key+" can be accepted silently")
 		}
 	}
+}
+
+// tagCompare: cond is `<tag> == "lit"` (eq) or `<tag> != "lit"`.
+func tagCompare(info *types.Info, cond ast.Expr, tag string) (lab string, eq bool, ok bool) {
+	be, isBin := ast.Unparen(cond).(*ast.BinaryExpr)
+	if !isBin || tag == "" || (be.Op != token.EQL && be.Op != token.NEQ) {
+		return "", false, false
+	}
+	for _, pair := range [][2]ast.Expr{{be.X, be.Y}, {be.Y, be.X}} {
+		if exprStr(pair[0]) != tag {
+			continue
+		}
+		if tv := info.Types[pair[1]]; tv.Value != nil && tv.Value.Kind() == constant.String {
+			return constant.StringVal(tv.Value), be.Op == token.EQL, true
+		}
+	}
+	return "", false, false
+}
+
+// missingAtom: e says that one of the expressions of set was never assigned: `x == nil`, `!x`, `x == false`, `len(x) == 0`.
+func missingAtom(e ast.Expr, set map[string]bool) bool {
+	e = ast.Unparen(e)
+	switch x := e.(type) {
+	case *ast.UnaryExpr:
+		return x.Op == token.NOT && set[exprStr(ast.Unparen(x.X))]
+	case *ast.BinaryExpr:
+		if x.Op != token.EQL {
+			return false
+		}
+		for _, pair := range [][2]ast.Expr{{x.X, x.Y}, {x.Y, x.X}} {
+			l, r := ast.Unparen(pair[0]), exprStr(ast.Unparen(pair[1]))
+			if set[exprStr(l)] && (r == "nil" || r == "false") {
+				return true
+			}
+			if call, ok := l.(*ast.CallExpr); ok && exprStr(call.Fun) == "len" && len(call.Args) == 1 && set[exprStr(ast.Unparen(call.Args[0]))] && r == "0" {
+				return true
+			}
+		}
+	}
+	return false
+}
+
+// presentAtom: the negation of a missingAtom: `x != nil`, `x`, `x == true`, `len(x) > 0`, `len(x) != 0`.
+func presentAtom(e ast.Expr, set map[string]bool) bool {
+	e = ast.Unparen(e)
+	switch x := e.(type) {
+	case *ast.Ident, *ast.SelectorExpr:
+		return set[exprStr(e)]
+	case *ast.BinaryExpr:
+		l, r := ast.Unparen(x.X), exprStr(ast.Unparen(x.Y))
+		if set[exprStr(l)] && ((x.Op == token.NEQ && (r == "nil" || r == "false")) || (x.Op == token.EQL && r == "true")) {
+			return true
+		}
+		if call, ok := l.(*ast.CallExpr); ok && exprStr(call.Fun) == "len" && len(call.Args) == 1 && set[exprStr(ast.Unparen(call.Args[0]))] && r == "0" && (x.Op == token.NEQ || x.Op == token.GTR) {
+			return true
+		}
+	}
+	return false
+}
+
+// guardSense: what a condition says about the documented alternative keys: "absent", "present", "mentions" (an alternative
+// occurs in a form that is not read further) or "".
+func guardSense(cond ast.Expr, guards map[string]bool) string {
+	switch {
+	case missingAtom(cond, guards):
+		return "absent"
+	case presentAtom(cond, guards):
+		return "present"
+	}
+	m := false
+	ast.Inspect(cond, func(x ast.Node) bool {
+		if ex, ok := x.(ast.Expr); ok && guards[exprStr(ex)] {
+			m = true
+		}
+		return !m
+	})
+	if m {
+		return "mentions"
+	}
+	return ""
+}
+
+// condHoldsWhenMissing: "" when cond is true on every run in which the key was not recorded (and no documented alternative
+// was), else what stands in the way.
+func condHoldsWhenMissing(cond ast.Expr, assigned, guards map[string]bool) string {
+	cond = ast.Unparen(cond)
+	if missingAtom(cond, assigned) {
+		return ""
+	}
+	if be, ok := cond.(*ast.BinaryExpr); ok {
+		switch be.Op {
+		case token.LOR:
+			// one disjunct that holds is enough
+			l, r := condHoldsWhenMissing(be.X, assigned, guards), condHoldsWhenMissing(be.Y, assigned, guards)
+			if l == "" || r == "" {
+				return ""
+			}
+			return l
+		case token.LAND:
+			// every conjunct must hold: the missing-test itself, or the absence of the documented alternative
+			some := false
+			for _, side := range []ast.Expr{be.X, be.Y} {
+				if w := condHoldsWhenMissing(side, assigned, guards); w == "" {
+					some = true
+					continue
+				}
+				if g := guardSense(side, guards); g == "absent" || g == "mentions" {
+					continue
+				}
+				return "also demands `" + exprStr(side) + "`, which is not the absence of the documented alternative (when it is false the missing key goes unreported)"
+			}
+			if some {
+				return ""
+			}
+		}
+	}
+	return "is not the test that the key is missing"
+}
+
+type variantArm struct {
+	t    types.Type // nil: the arm for no variant at all (default / case nil / final else)
+	name string     // the variable bound to the variant in the arm
+	body []ast.Stmt
+}
+
+// mandTypedField: `X.F = p.parse...(...)` in the clause of a key: the field F of the variant type of X records the key.
+type mandTypedField struct {
+	t types.Type
+	f string
+}
+
+func variantArmsOfSwitch(info *types.Info, s *ast.TypeSwitchStmt) []variantArm {
+	name := ""
+	if as, ok := s.Assign.(*ast.AssignStmt); ok && len(as.Lhs) == 1 {
+		name = exprStr(as.Lhs[0])
+	}
+	var arms []variantArm
+	for _, cc := range s.Body.List {
+		cl := cc.(*ast.CaseClause)
+		if cl.List == nil {
+			arms = append(arms, variantArm{nil, name, cl.Body})
+		}
+		for _, e := range cl.List {
+			if tv, ok := info.Types[e]; ok && tv.IsNil() {
+				arms = append(arms, variantArm{nil, name, cl.Body})
+			} else if t := info.TypeOf(e); t != nil {
+				arms = append(arms, variantArm{t, name, cl.Body})
+			}
+		}
+	}
+	return arms
+}
+
+// variantArmsOfIf: `if a, ok := X.(T1); ok {...} else if b, ok := X.(T2); ok {...} else {...}`.
+func variantArmsOfIf(info *types.Info, s *ast.IfStmt) []variantArm {
+	var arms []variantArm
+	for s != nil {
+		as, ok := s.Init.(*ast.AssignStmt)
+		if !ok || len(as.Rhs) != 1 || len(as.Lhs) != 2 || exprStr(s.Cond) != exprStr(as.Lhs[1]) {
+			return arms
+		}
+		ta, ok := ast.Unparen(as.Rhs[0]).(*ast.TypeAssertExpr)
+		if !ok || ta.Type == nil {
+			return arms
+		}
+		arms = append(arms, variantArm{info.TypeOf(ta.Type), exprStr(as.Lhs[0]), s.Body.List})
+		switch e := s.Else.(type) {
+		case *ast.IfStmt:
+			s = e
+		case *ast.BlockStmt:
+			arms = append(arms, variantArm{nil, "", e.List})
+			s = nil
+		default:
+			s = nil
+		}
+	}
+	return arms
+}
+
+// mandVariantArms: the section is a variant record (one type per alternative key): the arm of the variant that the key
+// creates reports when the key's own field was never assigned, and the arm for no variant at all reports always.
+func mandVariantArms(info *types.Info, arms []variantArm, key string, typed []mandTypedField, reportsAlways func([]ast.Stmt) bool) string {
+	own, none := false, false
+	ownSeen := false
+	for _, a := range arms {
+		if a.t == nil {
+			if reportsAlways(a.body) {
+				none = true
+			}
+			continue
+		}
+		for _, tf := range typed {
+			if !types.Identical(tf.t, a.t) || a.name == "" || a.name == "_" {
+				continue
+			}
+			ownSeen = true
+			field := map[string]bool{a.name + "." + tf.f: true}
+			for _, st := range a.body {
+				if ifs, ok := st.(*ast.IfStmt); ok && ifs.Init == nil && condHoldsWhenMissing(ifs.Cond, field, nil) == "" && reportsAlways(ifs.Body.List) {
+					own = true
+				}
+			}
+		}
+	}
+	switch {
+	case !ownSeen:
+		return "no arm of the switch over the variants handles the variant created by " + key
+	case !own:
+		return "the arm of the variant that " + key + " creates does not report when " + key + " itself was never assigned (the variant also arises from the other keys of the clause)"
+	case !none:
+		return "no arm reports a section that has none of the alternative keys (default arm missing or silent)"
+	}
+	return ""
 }
 
 // C13.FIXEDLEN: m := parseMapping(...); m[0] ... must be guarded by len(m) != <n>.
